@@ -1218,6 +1218,10 @@ func runHistories(r *core.Run, prop string) {
 			t.done = true
 		})
 	}
+	if r.Cfg.Index%8 == 1 {
+		// a collection at a point of the history that is a function of the run index
+		s.GCAtStep = int(r.Cfg.Index / 8 * 37 % 300)
+	}
 	if msg := s.Run(400000, nil); msg != "" {
 		r.Fail(prop, "liveness", "scheduler", "stuck", "%s", msg)
 		return
